@@ -195,3 +195,6 @@ _re("INIT", units_of("C10"), lambda n: n.startswith("NO-REINIT"))
 
 from contracts import lemmas as _L  # noqa: E402
 register(Unit(P, "LEMMA/CRASH", _L.h_crash, functions=[], replay=_replay_crash, uses=_L.CRASH_USES))
+
+from contracts import helpers as _HLP  # noqa: E402
+_HLP.register_under("C03", ["HELPER/validate_data_files", "HELPER/validate_file_exists", "HELPER/metadata-file-io"])
